@@ -608,7 +608,9 @@ func (r *setRun) report(full, n *Node, mode string, p EvalParams, d *Diff, want,
 		// windows of a range function do not tile the range query (range < step)
 		sig = "range<step|" + sig
 	case r.nanInfInWindow(min, mode, p):
-		// a NaN or +/-Inf sample lies in a window the expression reads
+		// a NaN or +/-Inf sample lies in a window the expression reads, or the expression
+		// divides by a vector or by 0 / raises to a negative power / raises a negative number
+		// to a vector (NaN or Inf are computed)
 		sig = "nan-inf-in-window|" + sig
 	}
 	ms := map[string]struct{}{}
@@ -686,6 +688,15 @@ func (r *setRun) nanInfInWindow(n *Node, mode string, p EvalParams) bool {
 			}
 		}
 		return false
+	}
+	if n.Kind == "bin" {
+		// computed NaN / Inf: division or modulo by a vector (samples can be 0), negative power
+		if (n.Op == "/" || n.Op == "%") && (n.R.Kind != "num" || n.R.Val == 0) {
+			return true
+		}
+		if n.Op == "^" && (n.R.Kind == "num" && n.R.Val < 0 || n.L.Kind == "num" && n.L.Val < 0) {
+			return true
+		}
 	}
 	return r.nanInfInWindow(n.Child, mode, p) || r.nanInfInWindow(n.L, mode, p) || r.nanInfInWindow(n.R, mode, p)
 }
